@@ -1,6 +1,6 @@
 #!/bin/bash
 # run every thorough check once, sequentially; log to scratch/thorough_<id>.log
-cd /verif
+cd "$(dirname "$0")/.." && mkdir -p scratch
 for p in ${@:-C01 C02 C03 C04 C05 C06 C07 C08 C09 C10 C11 C12 C13 C14 C15 C16 C17 C18 C20}; do
   s=$(date +%s)
   ./vf check $p --tier thorough > scratch/thorough_$p.log 2>&1
